@@ -373,7 +373,11 @@ def run(ctx):
     npairs, hist = mask_level(ctx, rep)
     nhedge = hedge_level(ctx, rep)
     stats = run_level(ctx, rep)
+    # ONE WHOLE CALL of optimize() (Opt.init + Full.step + Opt.finish, the model of Props/C18Opt.lean): the points each search / poll step evaluates are
+    # DERIVED by the model from the candidate sets and the acquisition picks, and compared with the run per iteration (runs with plain options)
+    wstats = runlevel.whole_replay(ctx, rep, plain_only=True)
     rep.coverage = {
+        "whole_run_model": wstats,
         "evaluations": npairs + nhedge + stats["searches"], "hedge_cases": nhedge, "distinct_nontrivial": npairs + stats["small_populations"] + stats["empty_generations"],
         "rule": "mask: every (mu, lambda) up to the bound (all pairs <= 300 in the thorough tier; a structured subset in the quick tier) plus (2048, 2048): the real mask vs Srch.selectionMask on the same integer weights, "
                 "and the mask predicates; searches: every ES call of the traced runs - all surviving candidates of all generations (as passed to the acquisition function) vs the proposed point; hedge probabilities of every search step; hedge function level: portfolios of 1..6 strategies x score histories (initial, close leaders + laggards, lopsided, huge, negative, equal, random) x gamma x beta",
